@@ -125,7 +125,7 @@ impl LanguageServer for Server {
 
             // the target may be in another file: use that file's line table
             let line_index = snap.analysis.line_index(location.file);
-            let vfs = snap.vfs.read().unwrap();
+            let vfs = &snap.vfs;
             let lsp_location = to_proto::location(&vfs, &line_index, location);
             Ok(Some(GotoDefinitionResponse::Scalar(lsp_location)))
         });
@@ -142,7 +142,7 @@ impl LanguageServer for Server {
             let Some(location_list) = snap.analysis.references(pos) else {
                 return Ok(None);
             };
-            let vfs = snap.vfs.read().unwrap();
+            let vfs = &snap.vfs;
             let lsp_location_list = location_list
                 .into_iter()
                 .map(|it| {
@@ -229,7 +229,7 @@ impl LanguageServer for Server {
                 return Ok(None);
             };
 
-            let vfs = snap.vfs.read().unwrap();
+            let vfs = &snap.vfs;
             let lsp_links = links
                 .into_iter()
                 .map(|it| to_proto::document_link(&vfs, &line_index, it))
@@ -296,7 +296,7 @@ impl Server {
                     .map(|diag| to_proto::diagnostic(&line_index, diag))
                     .collect();
 
-                let vfs = snap.vfs.read().unwrap();
+                let vfs = &snap.vfs;
                 let file_path = vfs.path_for_file(&file_id);
                 let file_uri = UrlExt::from_file_path(file_path);
 
@@ -321,7 +321,7 @@ impl Server {
     ) -> task::JoinHandle<T> {
         let snap = ServerSnapshot {
             analysis: self.host.analysis(),
-            vfs: Arc::clone(&self.vfs),
+            vfs: Arc::new(self.vfs.read().unwrap().snapshot()),
         };
         task::spawn_blocking(move || f(snap, params))
     }
@@ -329,5 +329,5 @@ impl Server {
 
 pub struct ServerSnapshot {
     pub analysis: Analysis,
-    pub vfs: Arc<RwLock<Vfs>>,
+    pub vfs: Arc<Vfs>,
 }
